@@ -11,6 +11,8 @@ import (
 func init() {
 	vRegister("H11_pool", H11_pool)
 	vRegister("H11_effects", H11_effects)
+	vRegister("H11_syn", H11_syn)
+	vRegister("H10_effects", H10_effects)
 }
 
 func vReaderSegment(reopen bool) (segment.Segment, *sSpec) {
@@ -104,7 +106,31 @@ func vSentinelsIntact() {
 // or through atomics; what it answers is the reference answer (also on a warm cache).
 func H11_effects() {
 	seg, sp := vReaderSegment(vBool("reopen"))
+	if !vSymbolic() {
+		// native replay: the two operations run in several goroutines at once on the fresh (cold) segment;
+		// under the race detector a lockset violation found by the engine shows up as a data race
+		done := make(chan struct{}, 4)
+		for g := 0; g < 4; g++ {
+			go func() {
+				defer func() { done <- struct{}{} }()
+				for i := 0; i < 20; i++ {
+					vReaderOp(seg, sp, "a")
+					vReaderOp(seg, sp, "b")
+				}
+			}()
+		}
+		for g := 0; g < 4; g++ {
+			<-done
+		}
+		vSentinelsIntact()
+		return
+	}
 	vShare(seg)
+	sbase, ok := seg.(*SegmentBase)
+	if !ok {
+		sbase = &seg.(*Segment).SegmentBase
+	}
+	vGuardMap(sbase.fieldFSTs, &sbase.m)
 	vReaderOp(seg, sp, "a")
 	vReaderOp(seg, sp, "b")
 	vUnshare()
@@ -123,3 +149,81 @@ func vGenBatchFixed(cfg gCfg) ([]index.Document, *sSpec) {
 }
 
 var _ = fmt.Sprint
+
+// H11_syn: thesaurus lookups (cold and warm cache) write only under the cache's lock and read it only with
+// the lock held; a warm lookup answers like the cold one.
+func H11_syn() {
+	docs, sp := vGenSynBatchFixed()
+	var z ZapPlugin
+	segI, _, err := z.newWithChunkMode(docs, DefaultChunkMode)
+	vAssert(err == nil, "build")
+	var seg segment.Segment = segI
+	if vBool("reopen") {
+		vAssert(segI.(*SegmentBase).Persist(vP("s.zap")) == nil, "persist")
+		seg, err = z.Open(vP("s.zap"))
+		vAssert(err == nil, "open")
+	}
+	if !vSymbolic() {
+		done := make(chan struct{}, 4)
+		for g := 0; g < 4; g++ {
+			go func() {
+				defer func() { done <- struct{}{} }()
+				for i := 0; i < 10; i++ {
+					sCheckThesauri(seg, sp, nil, nil, "n-")
+				}
+			}()
+		}
+		for g := 0; g < 4; g++ {
+			<-done
+		}
+		return
+	}
+	sbase, ok := seg.(*SegmentBase)
+	if !ok {
+		sbase = &seg.(*Segment).SegmentBase
+	}
+	vShare(seg)
+	vGuardMap(sbase.synIndexCache.cache, &sbase.synIndexCache.m)
+	vGuardMap(sbase.fieldFSTs, &sbase.m)
+	sCheckThesauri(seg, sp, nil, nil, "cold-")
+	sCheckThesauri(seg, sp, nil, nil, "warm-")
+	vUnshare()
+}
+
+// vGenSynBatchFixed: one ordinary and two synonym documents with a fixed shape.
+func vGenSynBatchFixed() ([]index.Document, *sSynSpec) {
+	sp := &sSynSpec{pairs: map[string]map[string][]sSynPair{}}
+	docs := []index.Document{
+		&vDoc{id: "o", fields: []index.Field{vIDField("o"), vTextField("body", 2, []vTerm{{term: "w", freq: 1}, {term: "x", freq: 1}}, index.IndexField, nil, nil, 't')}},
+		&vSynDoc{vDoc{id: "s0", fields: []index.Field{vIDField("s0"), &vSynField{name: "t1", terms: []string{"", "x"}, syns: [][]string{{"p"}, {"p", "q"}}}}}},
+		&vSynDoc{vDoc{id: "s1", fields: []index.Field{vIDField("s1"), &vSynField{name: "t2", terms: []string{"x"}, syns: [][]string{{"q"}}}}}},
+	}
+	sp.ids = []string{"o", "s0", "s1"}
+	sp.nDocs = 3
+	sp.add("t1", "", "p", 1)
+	sp.add("t1", "x", "p", 1)
+	sp.add("t1", "x", "q", 1)
+	sp.add("t2", "x", "q", 2)
+	return docs, sp
+}
+
+// H10_effects (reduction R1 for concurrent builds): a build writes no package-level state (outside the pool,
+// which is its own synchronised object): builds in other goroutines cannot influence it.
+func H10_effects() {
+	var z ZapPlugin
+	mk := func(prefix string) []index.Document {
+		d, _ := vGenBatchFixed(gCfg{prefix: prefix, idBase: prefix, nDocs: 2, wide: -1,
+			fields: []gField{{name: "f", terms: []string{"a", "b"}, tv: true, maxLocs: 1, fixLocs: true, dv: true, store: true, fixFreq: true}}})
+		return d
+	}
+	// first build materialises (initialises) the package state
+	_, _, err := z.newWithChunkMode(mk("a"), DefaultChunkMode)
+	vAssert(err == nil, "first-build")
+	vShareGlobals()
+	_, _, err = z.newWithChunkMode(mk("b"), vChunkMode())
+	vAssert(err == nil, "second-build")
+	syn, _ := vGenSynBatchFixed()
+	_, _, err = z.newWithChunkMode(syn, DefaultChunkMode)
+	vAssert(err == nil, "syn-build")
+	vUnshare()
+}
